@@ -62,6 +62,8 @@ pub struct Checker {
     pub cur: Option<(usize, Tag, Bytes)>,
     /// set_scripts calls that rewound filter sync: (min_filtered before, after, genesis re-filtered)
     pub rewinds: Vec<(u64, u64, bool)>,
+    /// the injected crash interrupted a set_scripts call
+    pub crash_in_set_scripts: bool,
     /// hashes of start points the client may legitimately use (collected before the event)
     pub allowed_starts: HashSet<Vec<u8>>,
     pub c07: crate::oracle2::C07State,
@@ -156,6 +158,51 @@ impl Checker {
         crate::oracle2::c12_check(self, sim, true);
         crate::oracle2::c07_on_boot(self, sim);
         crate::oracle2::c11_on_boot(self, sim);
+    }
+
+    pub fn on_crash_restart(&mut self, sim: &mut Sim) {
+        // in-memory state is gone; liveness clocks restart here
+        self.first_caught_up_after_quiet = None;
+        self.tip_ok_after_quiet = None;
+        self.cur = None;
+        sim.stat("probe.c08.crash_cases");
+        if sim.last_event_kind == "user.set_scripts" {
+            self.crash_in_set_scripts = true;
+            sim.stat("probe.c08.crash_inside_set_scripts");
+        }
+        // an interrupted set_scripts may or may not have taken effect: adopt the stored set
+        if let Some(c) = sim.client.as_ref() {
+            let stored: BTreeMap<ScriptKey, u64> = c
+                .storage
+                .get_filter_scripts()
+                .into_iter()
+                .map(|ss| {
+                    (
+                        ScriptKey::new(
+                            &ss.script,
+                            matches!(ss.script_type, crate::storage::ScriptType::Type),
+                        ),
+                        ss.block_number,
+                    )
+                })
+                .collect();
+            for (k, m) in self.scripts.iter_mut() {
+                if m.registered.is_some() && !stored.contains_key(k) {
+                    m.registered = None;
+                    m.prev = Coverage::default();
+                }
+            }
+            for (k, n) in stored {
+                let m = self.scripts.entry(k).or_default();
+                if m.registered.is_none() {
+                    m.registered = Some(n);
+                    m.last_progress = n;
+                } else if m.registered.map(|s| s > n).unwrap_or(false) {
+                    // the interrupted command re-registered it with another start number
+                    m.registered = Some(n);
+                }
+            }
+        }
     }
 
     pub fn on_unwind(&mut self, sim: &mut Sim, what: &str, proto: Option<Proto>, u: &Unwind) {
@@ -807,6 +854,13 @@ impl Checker {
                         format!("reported_height_but_{}", clause)
                     };
                     sim.violate("C09", &c, format!("[{}] {}", when, detail));
+                } else if prop == "C08" && self.crash_in_set_scripts {
+                    sim.violate(
+                        "C08",
+                        "crash_inside_set_scripts_leaves_partial_update",
+                        format!("the process died inside set_scripts; after restart and re-sync [{}]: {}", when, detail),
+                    );
+                    sim.taint = Some("C08/crash_inside_set_scripts_leaves_partial_update".into());
                 } else if prop == "C04" && !self.c04.unnoticed.is_empty() {
                     let (c4, fork) = self.c04.unnoticed.last().cloned().unwrap();
                     sim.violate(
